@@ -219,6 +219,35 @@ def body_adwin_eps(ctx, conservative):
     ctx.witness("lemma")
 
 
+def body_adwin_eps_delta_zero(ctx, conservative, zero, loose):
+    """the strictest legal confidence, delta = 0 (spelled 0 or 0.0): the cut is infinite, so the detector must never cut
+    where a detector with any positive delta does not (seed C17-9 replaced an exact zero by machine epsilon, which made
+    delta = 0 looser than delta = 1e-300).  Sizes and both deltas concrete (the logarithms are then ordinary doubles), totals and
+    variance symbolic."""
+    import warnings
+
+    from menelaus.change_detection import adwin as M
+
+    n0, n1, thr = 3, 4, 1
+    t0, t1 = ctx.real("total0"), ctx.real("total1")
+    # the variance multiplies an infinite confidence term in the ordinary bound: a positive constant there (0 x inf is
+    # not a number); symbolic in the conservative bound, which does not use it
+    var_sum = ctx.real("curr_variance") if conservative else 2.5
+    dl = loose  # concrete as well: a symbolic delta sits inside the (uninterpreted) logarithm and would not replay
+    ctx.assume(land(var_sum >= 0))
+    with rebind(M, zeros=stubs.object_zeros):
+        A = M.ADWIN(delta=zero, subwindow_size_thresh=thr, conservative_bound=conservative)
+        B = M.ADWIN(delta=dl, subwindow_size_thresh=thr, conservative_bound=conservative)
+    for d in (A, B):
+        d._window_size, d._curr_variance, d._curr_total = n0 + n1, var_sum, t0 + t1
+    with warnings.catch_warnings():
+        warnings.simplefilter("ignore")
+        cutA = A._check_epsilon(n0, t0, n1, t1)
+    cutB = B._check_epsilon(n0, t0, n1, t1)
+    ctx.prove(implies(cutA, cutB), "epsilon-cut-monotone-in-delta")
+    ctx.witness("lemma")
+
+
 def body_adwin_hist(ctx, N, cfg):
     with DRIVERS["ADWIN"](ctx, **cfg) as drv:
         A, B = drv.det, drv.twin()
@@ -464,6 +493,10 @@ def jobs(tier):
         for i, pair in enumerate(pairs):
             out.append(Job(f"{det.lower()}-{which}-concrete-thresholds-{i}", "checks.c17:body_label_step",
                            {"det": det, "pre": None, "aux": 1, "which": which, "concrete": pair}, expect=("lemma",)))
+    for cons in (False, True):
+        for zero, loose in ((0, 1e-300), (0.0, 1e-30), (0.0, 0.002)):
+            out.append(Job(f"adwin-epsilon-delta-{zero!r}-vs-{loose!r}-conservative{int(cons)}", "checks.c17:body_adwin_eps_delta_zero",
+                           {"conservative": cons, "zero": zero, "loose": loose}, expect=("lemma",), opts={"validate": 1}))
     for cons in (False, True):
         out.append(Job(f"adwin-epsilon-monotone-conservative{int(cons)}", "checks.c17:body_adwin_eps", {"conservative": cons},
                        expect=("lemma",), opts={"validate": 0}))
